@@ -445,6 +445,10 @@ func (p *Project) addDecoys(r *rand.Rand) {
 	both("nested/go.mod", "module example.com/nested\n\ngo 1.23\n", "module example.com/nested\n\ngo 1.23\n")
 	both("nested/n.go", o, n)
 	both("nested/sub/n.go", strings.Replace(o, "package nested", "package sub", 1), strings.Replace(n, "package nested", "package sub", 1))
+	// a nested module cut out with a go.mod that has no module directive (comment only)
+	o, n = changedGo("emptymod")
+	both("emptymod/go.mod", "// cut out of the parent module\n", "// cut out of the parent module\n")
+	both("emptymod/e.go", o, n)
 	o, n = marked("ign")
 	both("ignoredir/i.go", o, n)
 	o, n = changedGo("ign")
